@@ -165,6 +165,38 @@ void hb_refd_ids(void)
   __CPROVER_assert(!(m.has[id] && m.name[id] == k) || (k_refd && e->second.m_id == id), "a listed (id, name) pair is a referenced name with that id");
 }
 
+/* ---- a nested block starts its own numbering: uprefs (bindings &, uprefs &super) knows every name visible at the
+        block (scope chain first, then the enclosing block's up-values), none of them referenced yet */
+void hb_uprefs_ctor(void)
+{
+  bindings inner = nondet_bindings(), outer = nondet_bindings(); uprefs super = nondet_uprefs();
+  __CPROVER_assume(wf_bmap(&inner.m_bindings) && wf_bmap(&outer.m_bindings) && inv_uprefs(&super));
+  inner.m_super = nondet_bool() ? &outer : 0; outer.m_super = 0;
+  for (unsigned k = 0; k < NAMES; ++k)       /* a binding is either a binder or a builtin */
+    {
+      __CPROVER_assume(!inner.m_bindings.slot[k].has || (inner.m_bindings.slot[k].second.m_bind != 0) != (inner.m_bindings.slot[k].second.m_bi != 0));
+      __CPROVER_assume(!outer.m_bindings.slot[k].has || (outer.m_bindings.slot[k].second.m_bind != 0) != (outer.m_bindings.slot[k].second.m_bi != 0));
+    }
+  uprefs super0 = super;
+  verif_raised = 0;
+  uprefs u = uprefs_ctor_nested(&inner, &super);
+  __CPROVER_assert(verif_raised == 0, "no error, no failed assert()");
+  __CPROVER_assert(u.m_nextid == 0, "a block numbers its up-values from 0");
+  name_t q = nondet_uchar(); __CPROVER_assume(NAME_OK(q));
+  const binding *b = inner.m_bindings.slot[q].has ? &inner.m_bindings.slot[q].second
+                   : (inner.m_super != 0 && outer.m_bindings.slot[q].has) ? &outer.m_bindings.slot[q].second : 0;
+  const uentry *s = &super0.m_ids.slot[q], *e = &u.m_ids.slot[q];
+  __CPROVER_assert((e->has != 0) == (b != 0 || s->has != 0), "exactly the names visible at the block are known: the scope chain and the enclosing block's up-values");
+  if (e->has)
+    {
+      __CPROVER_assert(!e->second.m_id_used, "no name starts out as referenced: ids of the enclosing block are not inherited");
+      const builtin *expect_bi = b != 0 ? b->m_bi : s->second.m_bi;
+      __CPROVER_assert(e->second.m_bi == expect_bi, "a name stands for what the innermost visible binding says (scope chain before enclosing block)");
+    }
+  __CPROVER_assert(same_uentry(&super.m_ids.slot[q], s) && super.m_nextid == super0.m_nextid, "the enclosing block's table is not modified");
+  __CPROVER_assert(inv_uprefs(&u), "the new table satisfies the id invariant");
+}
+
 #ifdef VERIF_CONTROL
 void h_control(void)
 {
